@@ -35,6 +35,12 @@ scaled grid the limit-grid family of vf.harness.c02.scaled_grid_types (limits -L
             short decimal literal, every n of a range, 5 (thorough 6) inexact scales, top level and nested) is part of
             rebuild / copy / clientcopy, so that limit/scale falls below, on and above the integer.
 
+reconfigured every (old, new) spec pair of vf.harness.c01.reconf_pairs (60: leaves, arrays, tuples, structs, arrays of arrays;
+            limits widened and narrowed) x {override forwarded through the array, override set on the member}: the live
+            object built from `old` is reconfigured to `new` the way a cfg override does it (Reconf), then
+            rebuild / copy / clientcopy equivalence (probes of the new AND of the old spec), the identity walk, and
+            compatible() in both directions against every freshly built spec of the same kind, with value witnesses.
+
 Oracle calibration (weaker readings taken):
   * commands: A.compatible(B) is read as the code documents it and as proxy.py uses it - a command of type A stands in for
     one of type B: every valid argument of A must be a valid argument of B, every valid result of B must be a valid result
@@ -74,8 +80,47 @@ from vf.harness import c02 as H
 PROPERTY = 'C03'
 
 
+class Reconf(tuple):
+    """a spec (the NEW one) of a datatype that is built from spec `old` and then reconfigured on the live object the way a
+    configuration override does it (vf.harness.c01.reconfigure: setProperty at top level, forwarded through an array
+    (forward=True) or set directly on the members (forward=False) - never a member-level checkProperties), followed by the
+    top-level checkProperties() of Parameter.checkProperties.  Behaves as the new spec for every catalogue function"""
+    def __new__(cls, new, old, forward):
+        self = super().__new__(cls, new)
+        self.old, self.forward = old, forward
+        return self
+
+    def __eq__(self, other):
+        return isinstance(other, Reconf) and tuple(self) == tuple(other) and (self.old, self.forward) == (other.old, other.forward)
+
+    def __ne__(self, other):
+        return not self == other
+
+    def __hash__(self):
+        return hash((tuple(self), self.old, self.forward, 'reconf'))
+
+
+def reconf_json(spec):
+    return {'old': T.tojson(spec.old), 'forward': spec.forward} if isinstance(spec, Reconf) else None
+
+
+def reconf_from(specjson, rc):
+    spec = T.fromjson(specjson)
+    return Reconf(spec, T.fromjson(rc['old']), rc['forward']) if rc else spec
+
+
+def reconf_specs():
+    from vf.harness import c01
+    return [Reconf(new, old, fw) for old, new in c01.reconf_pairs() for fw in (True, False)]
+
+
 def build(spec):
-    """H.build extended by ('command', argument spec | None, result spec | None)"""
+    """H.build extended by ('command', argument spec | None, result spec | None) and by Reconf specs"""
+    if isinstance(spec, Reconf):
+        from vf.harness import c01
+        dt = c01.reconfigure(H.build(spec.old), spec.old, tuple(spec), spec.forward)
+        dt.checkProperties()
+        return dt
     if spec[0] == 'command':
         from frappy.datatypes import CommandType
         return CommandType(build(spec[1]) if spec[1] else None, build(spec[2]) if spec[2] else None)
@@ -85,6 +130,8 @@ def build(spec):
 def sstr(spec):
     if spec is None:
         return 'None'
+    if isinstance(spec, Reconf):
+        return f'[{T.sstr(spec.old)} reconfigured{" via the array" if spec.forward else ""} to] {T.sstr(tuple(spec))}'
     if spec[0] == 'command':
         return f'command({sstr(spec[1])} -> {sstr(spec[2])})'
     return T.sstr(spec)
@@ -208,6 +255,8 @@ def tolerance_probes(spec, entry):
 
 
 def probes(spec, entry, deep=True):
+    if isinstance(spec, Reconf):
+        return probes(tuple(spec), entry, deep) + probes(spec.old, entry, False)
     if deep:
         return [x for x, _ in V.cands(spec, entry, 1)] + tolerance_probes(spec, entry)
     return list(V.valid(spec, entry)) + list(V.bad(spec, entry)) + tolerance_probes(spec, entry)
@@ -218,6 +267,9 @@ def cands(spec, entry):
     yield from V.cands(spec, entry, 1)
     for x in tolerance_probes(spec, entry):
         yield x, 1
+    if isinstance(spec, Reconf):      # the boundaries the type had before it was reconfigured
+        for x in probes(spec.old, entry, False):
+            yield x, 1
 
 
 # ---------------------------------------------------------------------------------------------
@@ -306,11 +358,12 @@ def probe_class(spec, x, entry):
 
 def equivalence(part, spec, mode, only_case=None, builder=None, name=None):
     tname = name or sstr(spec)
+    smode = mode + ('-after-reconfiguration' if isinstance(spec, Reconf) else '')
     try:
         p, q = make_pair(spec, mode, builder)
     except Exception as e:
-        part.violation(f'C03:{mode}:{spec[0]}:construction-raises:{type(e).__name__}',
-                       {'check': mode, 'spec': T.tojson(spec), 'special': name, 'what': 'datainfo'},
+        part.violation(f'C03:{smode}:{spec[0]}:construction-raises:{type(e).__name__}',
+                       {'check': mode, 'spec': T.tojson(spec), 'special': name, 'reconf': reconf_json(spec), 'what': 'datainfo'},
                        f'{tname}: {mode} raised {type(e).__name__}: {e}')
         return
     part.transitions += 2
@@ -324,8 +377,8 @@ def equivalence(part, spec, mode, only_case=None, builder=None, name=None):
                 a, b = make_pair(sub, mode)
                 return jnorm(a.export_datatype()) != jnorm(b.export_datatype())
             sub = localise_spec(spec, fails) if builder is None else spec
-            part.violation(f'C03:{mode}:{sub[0] if builder is None else type(p).__name__}:datainfo-differs',
-                           {'check': mode, 'spec': T.tojson(spec), 'special': name, 'what': 'datainfo'},
+            part.violation(f'C03:{smode}:{sub[0] if builder is None else type(p).__name__}:datainfo-differs',
+                           {'check': mode, 'spec': T.tojson(spec), 'special': name, 'reconf': reconf_json(spec), 'what': 'datainfo'},
                            f'{tname}: datainfo of the original {dp[1]!r}, after {mode} {dq[1]!r}')
     if spec[0] == 'command':
         # a command has no values of its own: its argument and result types must be equivalent (or both absent)
@@ -336,8 +389,8 @@ def equivalence(part, spec, mode, only_case=None, builder=None, name=None):
                 part.evaluations += 1
                 part.outcomes[f'{mode}:command:{role}:{"both-absent" if pm is None and qm is None else "presence-differs"}'] += 1
                 if (pm is None) != (qm is None) and (only_case is None or only_case.get('what') == 'datainfo'):
-                    part.violation(f'C03:{mode}:command:{role}-presence-differs',
-                                   {'check': mode, 'spec': T.tojson(spec), 'special': name, 'what': 'datainfo'},
+                    part.violation(f'C03:{smode}:command:{role}-presence-differs',
+                                   {'check': mode, 'spec': T.tojson(spec), 'special': name, 'reconf': reconf_json(spec), 'what': 'datainfo'},
                                    f'{tname}: {role} of the original {pm!r}, after {mode} {qm!r}')
                 continue
             parts.append((role, sub, pm, qm))
@@ -372,8 +425,8 @@ def equivalence(part, spec, mode, only_case=None, builder=None, name=None):
                         return False
                     sub = localise_spec(pspec, fails) if builder is None else pspec
                     cls = probe_class(sub, hitprobe.get(sub, x) if sub is not pspec else x, entry)
-                    part.violation(f'C03:{mode}:{sub[0] if builder is None else type(p).__name__}:{res[0]}:{res[1]}{cls}',
-                                   {'check': mode, 'spec': T.tojson(spec), 'special': name, 'role': role, 'entry': entry,
+                    part.violation(f'C03:{smode}:{sub[0] if builder is None else type(p).__name__}:{res[0]}:{res[1]}{cls}',
+                                   {'check': mode, 'spec': T.tojson(spec), 'special': name, 'reconf': reconf_json(spec), 'role': role, 'entry': entry,
                                     'x': V.enc(x)},
                                    f'{tname} vs its {mode} ({sstr(sub)} is the innermost part behaving differently), '
                                    f'{(role + " ") if role else ""}{entry} probe {x!r}: {res[2]}')
@@ -452,7 +505,7 @@ def check_shared(part, spec, builder=None, name=None):
         kind = localise_spec(spec, fails)[0] if builder is None else type(dt).__name__
         pa, pb, obj = shared[0]
         part.violation(f'C03:copy:{kind}:shares-object:{objclass(obj)}',
-                       {'check': 'copy-shared', 'spec': T.tojson(spec), 'special': name},
+                       {'check': 'copy-shared', 'spec': T.tojson(spec), 'special': name, 'reconf': reconf_json(spec)},
                        f'{tname}: original and copy both reach the same {type(obj).__name__} object: original {pa}, '
                        f'copy {pb} ({len(shared)} shared objects)')
 
@@ -822,8 +875,8 @@ class Compat:
         return outcome(self.obj(a).compatible, self.obj(b))
 
     def sub_pairs(self, a, b):
-        if a[0] != b[0] or a[0] == 'command':
-            return []
+        if a[0] != b[0] or a[0] == 'command' or isinstance(a, Reconf) or isinstance(b, Reconf):
+            return []     # a member of a reconfigured type can not be rebuilt on its own with the same history
         if a[0] == 'array':
             return [(a[1], b[1])]
         if a[0] == 'tuple' and len(a[1]) == len(b[1]):
@@ -845,7 +898,7 @@ class Compat:
         part.states += 1
         v = self.verdict(a, b)
         cls = f'{a[0]}->{b[0]}'
-        case = {'check': 'compat', 'a': T.tojson(a), 'b': T.tojson(b)}
+        case = {'check': 'compat', 'a': T.tojson(a), 'b': T.tojson(b), 'a_reconf': reconf_json(a), 'b_reconf': reconf_json(b)}
         if v[0] == 'ok':
             part.traces += 1
             part.nontrivial += 1
@@ -859,6 +912,8 @@ class Compat:
                 shape = H.shape(sa, wv) if sa[0] == 'struct' else sa[0]
                 what = f'valid-{wv[0]}-refused' if sa[0] == 'command' == sb[0] else \
                     'valid-value-refused' + (probe_class(sb, wv, 'drv') if sb[0] in KINDCLASS and sa[0] in KINDCLASS else '')
+                if isinstance(sa, Reconf) or isinstance(sb, Reconf):
+                    what += ':after-reconfiguration'
                 part.violation(f'C03:compatible:{shape}:passes-into-{KINDCLASS.get(sb[0], sb[0])}:{what}',
                                case,
                                f'{sstr(a)} .compatible( {sstr(b)} ) returns, but {self.witness_text(sa, sb, ref[0][0])} '
@@ -876,7 +931,8 @@ class Compat:
                     part.notes.append(f'must_pass({sstr(a)}, {sstr(b)}) but {ref[0][0]!r} is refused by the second')
                     return
                 sa, sb = self.localise(a, b, lambda x, y: must_pass(x, y) and self.verdict(x, y)[0] != 'ok')
-                part.violation(f'C03:compatible:{sa[0]}:raises-for-nested-{KINDCLASS.get(sb[0], sb[0]) if sa[0] != sb[0] else "same-kind"}',
+                rc = ':after-reconfiguration' if isinstance(sa, Reconf) or isinstance(sb, Reconf) else ''
+                part.violation(f'C03:compatible:{sa[0]}:raises-for-nested-{KINDCLASS.get(sb[0], sb[0]) if sa[0] != sb[0] else "same-kind"}{rc}',
                                case,
                                f'{sstr(a)} .compatible( {sstr(b)} ) raises {v[1]} although every valid value of the first '
                                f'(witnesses from both catalogues tried) is valid for the second; innermost such pair: '
@@ -921,6 +977,25 @@ def shard_isolation(specs):
     return part
 
 
+def shard_reconf(specs):
+    """the reconfigured-after-construction dimension: rebuild / copy / clientcopy equivalence, identity walk, and
+    compatible() in both directions against every freshly built catalogue spec of the same kind"""
+    part = core.Part()
+    partners = {}
+    for r in reconf_specs():
+        for sp in (tuple(r), r.old):
+            partners.setdefault(sp[0], {})[sp] = None
+    for spec in specs:
+        for mode in ('rebuild', 'copy', 'clientcopy'):
+            equivalence(part, spec, mode)
+        check_shared(part, spec)
+        cp = Compat(part, [])
+        for other in partners[spec[0]]:
+            cp.check(spec, other)
+            cp.check(other, spec)
+    return part
+
+
 def shard_compat(shard):
     tier, idxs = shard
     part = core.Part()
@@ -947,6 +1022,9 @@ def run(ctx):
         ctx.pmap(shard_special, [[n_] for n_ in specials()], name='copy_special')
     if not only or 'isolation' in only:
         ctx.pmap(shard_isolation, ishards, name='isolation')
+    rspecs = reconf_specs()
+    if not only or 'reconfigured' in only:
+        ctx.pmap(shard_reconf, [rspecs[i::32] for i in range(32)], name='reconfigured')
     ptypes = pair_types(ctx.tier)
     if not only or 'compatible' in only:
         m = min(len(ptypes), 1024)     # one first-type per shard: the cost per first type varies widely
@@ -959,7 +1037,7 @@ def run(ctx):
                 f'compatible: all {len(ptypes)}^2 ordered pairs of the pair catalogue, each passing pair probed with every valid '
                 'value of the first type (own catalogue + both sides\' boundary catalogues). distinct_nontrivial = probes with a bad / boundary '
                 'position treated alike + effective mutations + pairs that pass or are obliged to pass; states = probes + mutations + pairs')
-    ctx.coverage.update(types=len(types), pair_types=len(ptypes), pairs=len(ptypes) ** 2,
+    ctx.coverage.update(types=len(types), reconfigured_types=len(rspecs), pair_types=len(ptypes), pairs=len(ptypes) ** 2,
                         bound_completed='type depth<=3 (rebuild/copy/isolation), all ordered pairs of the pair catalogue')
     ctx.assume('types, limits and values outside the catalogues are not covered',
                'generalConfig.lazy_number_validation is False (the default)',
@@ -974,7 +1052,7 @@ def replay(case):
     if name:
         builder, spec = specials()[name]
     elif check != 'compat':
-        spec = T.fromjson(case['spec'])
+        spec = reconf_from(case['spec'], case.get('reconf'))
     if check in ('rebuild', 'copy', 'clientcopy'):
         equivalence(part, spec, check, only_case=case, builder=builder, name=name)
     elif check == 'copy-shared':
@@ -982,6 +1060,6 @@ def replay(case):
     elif check == 'isolation':
         isolation(part, spec, only_case=case, builder=builder, name=name)
     elif check == 'compat':
-        a, b = T.fromjson(case['a']), T.fromjson(case['b'])
+        a, b = reconf_from(case['a'], case.get('a_reconf')), reconf_from(case['b'], case.get('b_reconf'))
         Compat(part, [a, b]).check(a, b)
     return part
